@@ -9,6 +9,7 @@ package nodenumaresource
 // Wire formats are documented at the top of the Extract.v files.
 
 import (
+	"context"
 	"encoding/json"
 	"fmt"
 	"math/rand"
@@ -25,6 +26,7 @@ import (
 	metav1 "k8s.io/apimachinery/pkg/apis/meta/v1"
 	"k8s.io/apimachinery/pkg/types"
 	"k8s.io/client-go/tools/cache"
+	"k8s.io/kubernetes/pkg/scheduler/framework"
 
 	"github.com/koordinator-sh/koordinator/apis/extension"
 	schedulingconfig "github.com/koordinator-sh/koordinator/pkg/scheduler/apis/config"
@@ -556,8 +558,12 @@ type vtC06Live struct {
 	rm      ResourceManager
 	tom     TopologyOptionsManager
 	handler *podEventHandler
+	plugin  *Plugin
 	node    *corev1.Node
 	edges   []vtC06Edge
+	// what the history says every live pod holds: the allocation Allocate returned for it, or the
+	// one the last informer event spelled (never read back from the ledger)
+	bound map[int64]*PodAllocation
 }
 
 // cpu list string as a node agent / kubelet may write it: every range as "lo-hi" (also "8-8")
@@ -580,7 +586,9 @@ func vtC06RangeString(ranges [][3]int64) string {
 // header: the topology and the reserved CPUs go through the NodeResourceTopology annotations and
 // NewTopologyOptions, exactly as the NRT event handler builds the options
 func vtC06NewLive(r *vtC06Rd) *vtC06Live {
-	vtC06SuitOnce.Do(func() { vtC06Suit = newPluginTestSuit(vtC06T, nil, nil) })
+	vtC06SuitOnce.Do(func() {
+		vtC06Suit = newPluginTestSuit(vtC06T, nil, []*corev1.Node{{ObjectMeta: metav1.ObjectMeta{Name: vtC06Node}}})
+	})
 	maxRef, most := r.next(), r.next()
 	k := int(r.next())
 	reported := &extension.CPUTopology{}
@@ -623,8 +631,13 @@ func vtC06NewLive(r *vtC06Rd) *vtC06Live {
 		o.NUMANodeResources = caps
 	})
 	rm := NewResourceManager(vtC06Suit.Handle, vtC06Strategy(most), tom)
-	return &vtC06Live{rm: rm, tom: tom, handler: &podEventHandler{resourceManager: rm},
-		node: &corev1.Node{ObjectMeta: metav1.ObjectMeta{Name: vtC06Node}}}
+	plugin := &Plugin{
+		handle:                 &frameworkHandleExtender{FrameworkExtender: vtC06Suit.Extender, Clientset: vtC06Suit.NRTClientset},
+		resourceManager:        rm,
+		topologyOptionsManager: tom,
+	}
+	return &vtC06Live{rm: rm, tom: tom, handler: &podEventHandler{resourceManager: rm}, plugin: plugin,
+		node: &corev1.Node{ObjectMeta: metav1.ObjectMeta{Name: vtC06Node}}, bound: map[int64]*PodAllocation{}}
 }
 
 func (l *vtC06Live) edgesDel(uid int64) {
@@ -729,7 +742,9 @@ func (l *vtC06Live) apply(r *vtC06Rd) []int64 {
 			if victim >= 0 {
 				l.rm.Release(vtC06Node, vtC06UID(victim))
 				l.edgesDel(victim)
+				delete(l.bound, victim)
 			}
+			l.bound[uid] = alloc
 			l.edgesDel(uid)
 			if host >= 0 {
 				l.edges = append(l.edges, vtC06Edge{guest: uid, host: host, set: alloc.CPUSet.Intersection(options.preferredCPUs)})
@@ -739,8 +754,16 @@ func (l *vtC06Live) apply(r *vtC06Rd) []int64 {
 		out = append(out, vtC06EncResult(alloc, ok)...)
 	case 2:
 		uid := r.next()
-		l.rm.Release(vtC06Node, vtC06UID(uid))
+		if uid%2 == 1 {
+			// the scheduler gives the pod up: the real Unreserve extension point
+			cs := framework.NewCycleState()
+			cs.Write(stateKey, &preFilterState{allocation: &PodAllocation{UID: vtC06UID(uid)}})
+			l.plugin.Unreserve(context.TODO(), cs, &corev1.Pod{ObjectMeta: metav1.ObjectMeta{UID: vtC06UID(uid), Namespace: "default", Name: string(vtC06UID(uid))}}, vtC06Node)
+		} else {
+			l.rm.Release(vtC06Node, vtC06UID(uid))
+		}
 		l.edgesDel(uid)
+		delete(l.bound, uid)
 		out = append(out, 1, 0, 0)
 	case 3:
 		// a pod event: the allocation is read back from the pod's annotations by the real handler
@@ -772,6 +795,7 @@ func (l *vtC06Live) apply(r *vtC06Rd) []int64 {
 		l.handler.OnAdd(pod, false)
 		if len(cpus) > 0 || nn > 0 {
 			l.edgesDel(uid)
+			l.bound[uid] = vtC06Spelled(uid, excl, cpus, status)
 		}
 		out = append(out, 1, 0, 0)
 	case 5:
@@ -842,14 +866,51 @@ func (l *vtC06Live) apply(r *vtC06Rd) []int64 {
 			panic("bad event kind")
 		}
 		// bookkeeping of the give-back edges (Spec.event_effect: 0 nothing, 1 alive, 2 dead)
-		if vtC06EventEffect(kind, assigned != 0, oldAssigned != 0, phase >= 2, bad != 0, len(cpus) == 0 && nn == 0) != 0 {
+		switch vtC06EventEffect(kind, assigned != 0, oldAssigned != 0, phase >= 2, bad != 0, len(cpus) == 0 && nn == 0) {
+		case 1:
 			l.edgesDel(uid)
+			l.bound[uid] = vtC06Spelled(uid, excl, cpus, status)
+		case 2:
+			l.edgesDel(uid)
+			delete(l.bound, uid)
+		}
+		out = append(out, 1, 0, 0)
+	case 6:
+		// the informer echoes the pod as bound: the annotations are written by the real PreBind
+		// code from the allocation the history recorded, then delivered as an update
+		uid := r.next()
+		if alloc, ok := l.bound[uid]; ok {
+			pod := &corev1.Pod{ObjectMeta: metav1.ObjectMeta{UID: vtC06UID(uid), Namespace: "default", Name: string(vtC06UID(uid))},
+				Status: corev1.PodStatus{Phase: corev1.PodPending}}
+			if err := extension.SetResourceSpec(pod, &extension.ResourceSpec{PreferredCPUExclusivePolicy: extension.CPUExclusivePolicy(alloc.CPUExclusivePolicy)}); err != nil {
+				panic(err)
+			}
+			old := pod.DeepCopy()
+			cs := framework.NewCycleState()
+			cs.Write(stateKey, &preFilterState{allocation: alloc, requestCPUBind: !alloc.CPUSet.IsEmpty(),
+				preferredCPUExclusivePolicy: alloc.CPUExclusivePolicy})
+			if st := l.plugin.PreBind(context.TODO(), cs, pod, vtC06Node); !st.IsSuccess() {
+				panic(st.Message())
+			}
+			pod.Spec.NodeName = vtC06Node
+			pod.Status.Phase = corev1.PodRunning
+			l.handler.OnUpdate(old, pod)
 		}
 		out = append(out, 1, 0, 0)
 	default:
 		panic("bad op")
 	}
 	return append(out, vtC06Dump(l.rm)...)
+}
+
+// the allocation an informer event spells in the pod's annotations
+func vtC06Spelled(uid, excl int64, cpus []int, status *extension.ResourceStatus) *PodAllocation {
+	alloc := &PodAllocation{UID: vtC06UID(uid), Namespace: "default", Name: string(vtC06UID(uid)),
+		CPUSet: cpuset.NewCPUSet(cpus...), CPUExclusivePolicy: vtC06Excl(excl)}
+	for _, e := range status.NUMANodeResources {
+		alloc.NUMANodeResources = append(alloc.NUMANodeResources, NUMANodeResource{Node: int(e.Node), Resources: e.Resources})
+	}
+	return alloc
 }
 
 // the property's reading of an informer event (Spec.event_effect), from the event's content only
@@ -1080,6 +1141,9 @@ func vtC06HistoryGen(r *rand.Rand, style int) (string, []int64) {
 			} else {
 				in = append(in, 2, uid)
 			}
+		case x == 9:
+			// the informer echoes a (probably) live pod as bound
+			in = append(in, 6, uid)
 		case x == 8 && !withUpdates:
 			in = append(in, vtC06GenEvent(r, uid, cpus, nodes, memUnit, false, false)...)
 		case x < 8 && withUpdates && r.Intn(2) == 0:
